@@ -104,6 +104,15 @@ func cpkLeaf(c *engine.Chooser, name string, k cfg) {
 
 	pk := rlwe.NewPublicKey(params)
 	protos[0].GenPublicKey(final, crps[0], pk)
+	if inst == 0 && hist == 0 {
+		// outputs never alias the callee's memory or the inputs: the key must survive reuse of the share, the
+		// reference polynomial and the protocol object
+		if ov := mp.Overlap([]interface{}{"public key", pk}, []interface{}{"aggregated share", &final, "crp", &crps[0], "protocol", &protos[0]}); ov != "" {
+			c.Fail("C14/cpk/GenPublicKey/output-aliases-input-or-callee", "%s", ov)
+			return
+		}
+		c.Cover("alias", "key-vs-inputs-and-callee")
+	}
 
 	// functional oracle: the collective key encrypts; read under the ideal secret
 	uni.Seed(c, name, "use")
